@@ -304,6 +304,14 @@ func (g *schemaGenerator) generateDeclaredType(t *schemas.Type, scope nameScope)
 		delete(g.output.declsBySchema, t)
 		delete(g.output.declsByName, decl.Name)
 
+		// The node stands for the declaration it resolved to: a later visit (a reference to a
+		// definition that consists of an allOf) gets that declaration instead of generating it,
+		// and its unmarshaler, a second time. Types of other packages keep their own path, which
+		// qualifies them.
+		if nt, nerr := g.extractPointedType(theType); nerr == nil && nt.Package == nil && nt.Decl != nil {
+			g.output.declsBySchema[t] = nt.Decl
+		}
+
 		return theType, nil
 	}
 
